@@ -238,8 +238,10 @@ theorem variants_step {s : Src} (hs : AsciiThenBoundary s) {n : Nat} (IH : Specs
         exact hk.elim
     · simp only [Bool.not_false, if_true]
       split
-      · exact (good_ok _ _ _ _ _).mpr ⟨by omega, h2, hacc⟩
       · simp; omega
+      · split
+        · exact (good_ok _ _ _ _ _).mpr ⟨by omega, h2, hacc⟩
+        · simp; omega
 
 theorem takeByteIf_after (s : Src) (p : Nat) (b : UInt8) (hb : b < 128) : After s p (takeByteIf s p b).1 := by
   rcases takeByteIf_cases s p b with ⟨h, h'⟩ | ⟨h, _⟩ <;> rw [h]
